@@ -330,8 +330,14 @@ class SymLine:
     """a symbolic text line whose byte at position p is an unknown hex digit
     ('d', repr(p))"""
 
-    def __init__(self, name, swap=None):
+    def __init__(self, name, length=None):
         self.name = name
+        self.length = length
+
+    def all_digits(self):
+        if self.length is None:
+            raise AnalysisError('symbolic line of unknown length')
+        return HexText([self.digit(Aff({}, k)) for k in range(self.length)])
 
     def digit(self, pos):
         if not isinstance(pos, Aff):
@@ -695,6 +701,10 @@ class Evaluator:
                 return HexText(v.digits[lo:hi])
             i = self.to_aff(self.ev(e.slice, env, path))
             return HexText([v.digits[i.const]])
+        if isinstance(v, dict):
+            k = const_str(e.slice)
+            if k in v:
+                return v[k]
         if isinstance(v, (tuple, list)):
             i = self.to_aff(self.ev(e.slice, env, path))
             if i.is_const():
@@ -710,6 +720,13 @@ class Evaluator:
         if isinstance(v, SymArray):
             idx = self.to_aff(self.ev(e.slice, env, path))
             self.note_access(v.name, idx, e, path, 'load')
+            for (a, i, val, _n) in reversed(path.stores):
+                if a == v.name and i == idx:
+                    return val
+                if a == v.name and not self.distinct(i, idx):
+                    raise AnalysisError('load may alias an earlier store')
+            if v.init_zero:
+                return BV([ZERO])
             return BV.source(('mem', v.name, idx.key()), v.width)
         raise AnalysisError('subscript outside the model: ' +
                             ast.unparse(e)[:60])
@@ -802,7 +819,7 @@ class Evaluator:
                 v = self.ev(e.args[0], env, path)
                 if isinstance(v, list):
                     return ByteList([self.to_bv(x) for x in v])
-                if isinstance(v, (HexText, Text, ByteList)):
+                if isinstance(v, (HexText, Text, ByteList, SymLine)):
                     return v
                 if isinstance(v, tuple):
                     return ByteList([self.to_bv(x) for x in v])
@@ -843,12 +860,32 @@ class Evaluator:
                 raise AnalysisError('bytes_to_hex of a non byte list')
             if fn.attr == 'fromhex' and e.args:
                 v = self.ev(e.args[0], env, path)
+                if isinstance(v, SymLine):
+                    v = v.all_digits()
                 if isinstance(v, HexText) and len(v.digits) % 2 == 0:
                     items = []
                     for i in range(0, len(v.digits), 2):
                         items.append((v.digits[i].shl(4) |
                                       v.digits[i + 1]))
                     return ByteList(items)
+            if fn.attr == 'join' and isinstance(const_str(fn.value), bytes) \
+                    and const_str(fn.value) == b'' and len(e.args) == 1:
+                v = self.ev(e.args[0], env, path)
+                if isinstance(v, (list, tuple)):
+                    out = Text([])
+                    for item in v:
+                        out = out + _as_text(item)
+                    return out
+            if fn.attr == 'append' and isinstance(fn.value, ast.Name) and \
+                    isinstance(env.get(fn.value.id), list) and \
+                    len(e.args) == 1:
+                env[fn.value.id] = env[fn.value.id] + [
+                    self.ev(e.args[0], env, path)]
+                return NONE
+            if fn.attr in ('rstrip', 'strip') and not e.args:
+                v = self.ev(fn.value, env, path)
+                if isinstance(v, SymLine):
+                    return v
             # self.method(...) -> inline
             if isinstance(fn.value, ast.Name) and fn.value.id in env and \
                     isinstance(env[fn.value.id], ObjRef):
@@ -935,6 +972,22 @@ class Evaluator:
             return [(path, env, False)]
         if isinstance(st, ast.Assert):
             self.assume_true(st.test, env, path)
+            # 0 <= name <= 2**k - 1 on a bit-vector value: higher bits are 0
+            t = st.test
+            if isinstance(t, ast.Compare) and len(t.ops) == 2 and \
+                    all(isinstance(o, ast.LtE) for o in t.ops) and \
+                    isinstance(t.comparators[0], ast.Name) and \
+                    isinstance(env.get(t.comparators[0].id), BV):
+                try:
+                    hi = self.to_aff(self.ev(t.comparators[1], env, path))
+                    lo = self.to_aff(self.ev(t.left, env, path))
+                except AnalysisError:
+                    hi = lo = None
+                if hi is not None and hi.is_const() and lo.is_const() and \
+                        lo.const == 0 and (hi.const + 1) & hi.const == 0:
+                    k = hi.const.bit_length()
+                    nm = t.comparators[0].id
+                    env[nm] = BV(env[nm].cells[:k] or [ZERO])
             return [(path, env, False)]
         if isinstance(st, ast.Return):
             path.ret = self.ev(st.value, env, path) if st.value is not None \
@@ -986,7 +1039,8 @@ class Evaluator:
             out = []
             for val, body in ((True, st.body), (False, st.orelse)):
                 p2 = path.clone()
-                e2 = dict(env)
+                e2 = {k: (list(v) if isinstance(v, list) else v)
+                      for k, v in env.items()}
                 self.cur = p2
                 self.refine(c, val, p2, st.test)
                 for r in self.block(body, e2, p2):
@@ -1166,9 +1220,10 @@ class ByteList:
 class SymArray:
     """a named symbolic array of fixed-width cells"""
 
-    def __init__(self, name, width=8):
+    def __init__(self, name, width=8, init_zero=False):
         self.name = name
         self.width = width
+        self.init_zero = init_zero
 
 
 class SymArrayView:
@@ -1178,6 +1233,8 @@ class SymArrayView:
 def _as_text(v):
     if isinstance(v, Text):
         return v
+    if isinstance(v, SymLine):
+        return Text([('hex', v.all_digits())])
     if isinstance(v, HexText):
         return Text([('hex', v)])
     if isinstance(v, bytes):
